@@ -14,6 +14,7 @@ def in_domain(script):
 
 def run(chk):
     c_exe, m_exe = vlib.prepare_area(chk, slist, leanchecker=True)
+    vlib.translator_tie(chk, "slist", slist.TIE_MODULE, slist.TIE_THEOREMS)
     if c_exe:
         vlib.run_scripts(chk, slist, c_exe, m_exe, slist.corpus(), slist.oracle)
         if chk.tier == "quick":
@@ -37,6 +38,8 @@ def run(chk):
             near = [small + [op] for op in ("pushb 1 40", "pushb 2 40", "pushb 3 40", "back 1", "back 2",
                                             "foreach 1 -1", "foreach 2 -1", "popf 1", "popf 2")]
             vlib.run_scripts(chk, slist, c_exe, m_exe, [s for s in near if in_domain(s)], slist.oracle)
+    if c_exe and chk.oracle_failures:
+        vlib.shrink_failures(chk, slist, c_exe, slist.oracle, in_domain)
     return chk.finish()
 
 
